@@ -271,7 +271,9 @@ def make_cases(rng, tier, replay=None):
                ['SAd', ['SSc', '1/2', ['SMo', ['w', '3'], ['SB', 'step', {}]]], ['SSc', '1/2', ['SMo', ['w', '-3'], ['SB', 'step', {}]]]],
                ['SAf', '1', '-1', ['SB', 'step', {}]], ['SAf', '2', '1', ['SB', 'tri', {}]],
                # t/(a t - j b), pole in the upper half plane (a table entry outside the listed signal class)
-               ['SB', 'tratio', {'ta': '1', 'tb': '1'}], ['SB', 'tratio', {'ta': '2', 'tb': '3'}],
+               ['SB', 'tratio', {'ta': '1', 'tb': '1'}], ['SB', 'tratio', {'ta': '2', 'tb': '3'}], ['SB', 'tratio', {'ta': '-2', 'tb': '-1'}],
+               # ... and in the lower half plane (b/a < 0)
+               ['SB', 'tration', {'ta': '1', 'tb': '-1'}], ['SB', 'tration', {'ta': '-2', 'tb': '1'}], ['SB', 'tration', {'ta': '3', 'tb': '-1/2'}],
                ]
     for s in bases_t:
         add({'kind': 'sig', 'dom': 't', 'sig': s, 'expr': S.sig_src(s, 't'), 'tag': 'base',
@@ -793,7 +795,7 @@ def run(tier='quick', replay=None):
         # features named by a broken obligation (the theorem says which entry / method is wrong)
         oblkey = {}
         for o in meta['table_obligations']:
-            ft_ = ('rule:' + o['pid'][2:]) if o['pid'].startswith('R_') else ('pid:' + {'tratio1': 'tratio', 'tratio2': 'tratio'}.get(o['pid'], o['pid']))
+            ft_ = ('rule:' + o['pid'][2:]) if o['pid'].startswith('R_') else ('pid:' + {'tratio1': 'tratio', 'tratio2': 'tratio', 'tratio1n': 'tration', 'tratio2n': 'tration'}.get(o['pid'], o['pid']))
             oblkey[o['sound']] = ('fwd', ft_)
             oblkey[o['inv']] = ('inv', ft_)
         for fname_, cls_, m_, src_, dst_ in T.CONV:
@@ -847,7 +849,7 @@ def run(tier='quick', replay=None):
                 # the hash of that expression, and only covers results that the model WITH the translated (wrong) expression
                 # reproduces exactly; anything else on the same entry is a different violation
                 explained = st['state'] != 'compared' or kind in ('rt', 'conv', 'sshort', 'viatime') or not any(x == 'bad' for x in (st.get('code') or []))
-                if explained and bf in ('pid:tratio',):
+                if explained and bf in ('pid:tratio', 'pid:tration'):
                     # only plain inputs of this class are generated: keyed by input class + shape of the wrong result,
                     # independent of whether the translation succeeded
                     key = '%s:%s:%s' % (kind, bf, heads(st['str']))
